@@ -10,7 +10,7 @@ _FloatQuadruple = Tuple[float, float, float, float]
 def safe_int(o: Any) -> Optional[int]:
     try:
         return int(o)
-    except (TypeError, ValueError):
+    except (TypeError, ValueError, OverflowError):
         return None
 
 
